@@ -18,13 +18,13 @@ ID = "C11"
 PROPS = ["props/C11.v"]
 EXTRACTS = ["C11"]
 THEOREMS = [
-    "C11_headers_partial", "C11_headers_refuted_body", "C11_headers_refuted_folded", "C11_headers_refuted_colon",
+    "C11_headers_partial", "C11_headers_refuted_body", "C11_headers_folded_and_colon_read",
     "C11_parse_never_index_error",
-    "C11_reqs_intact_partial", "C11_reqs_refuted_dropped",
-    "C11_dist_info_own", "C11_dist_info_own_exact", "C11_dist_info_vendored_elsewhere", "C11_dist_info_own_refuted",
+    "C11_reqs_intact_partial", "C11_reqs_intact_parsed", "C11_reqs_refuted_dropped",
+    "C11_dist_info_own", "C11_dist_info_own_exact", "C11_root_match_spec", "C11_dist_info_vendored_read_own",
     "C11_unreadable_is_error", "C11_ok_only_from_declared",
-    "C11_source_shape_pinned", "C11_wheel_end_to_end_partial", "C11_reqs_intact_parsed",
-    "C11_headers_partial_sharp", "C11_spec_reads_rendered", "C11_rendered_metadata_read_back",
+    "C11_source_shape_pinned", "C11_wheel_end_to_end_partial",
+    "C11_spec_reads_rendered", "C11_rendered_metadata_read_back",
     "C11_read_sees_current_content", "C11_read_history_independent",
 ]
 RULE = ("(a) generated METADATA texts (field order and case, 0-8 Requires-Dist with extras/markers/parenthesised "
@@ -597,19 +597,17 @@ def correspondence(ctx: Ctx) -> None:
         try:
             hd, sel = ah.split(" | ")
             rd = Rd(hd.split())
-            g_body, g_fold, g_colon, g_sharp = rd.next() == "1", rd.next() == "1", rd.next() == "1", rd.next() == "1"
+            g_sharp = rd.next() == "1"
             nf = int(rd.next())
             fields = [(rd.s(), rd.s()) for _ in range(nf)]
             self_f = read_flat(Rd(sel.split()))
         except Exception:
             ctx.mismatch("spec-protocol", {"text": t}, "parsable answer", ah)
             continue
-        guards = g_sharp and g_fold and g_colon
-        ctx.count("guards:" + ("all" if guards and g_body else "sharp-only" if guards else "".join(x for x, g in (("B", g_sharp), ("F", g_fold), ("C", g_colon)) if not g)))
-        if g_body and not g_sharp:
-            ctx.mismatch("guard-monotonicity", {"text": t}, "no_headerlike_body -> body_harmless", ah[:20])
+        guards = g_sharp
+        ctx.count("guards:" + ("body-harmless" if guards else "body-headerlike"))
         if guards and {k: v for k, v in self_f.items()} != {k: v for k, v in f.items()}:
-            ctx.mismatch("theorem-instance(C11_headers_partial_sharp)", {"text": t}, f, self_f)
+            ctx.mismatch("theorem-instance(C11_headers_partial)", {"text": t}, f, self_f)
         ef = email_fields(t)
         if ef is not None:
             ctx.count("email-oracle:compared")
@@ -875,34 +873,34 @@ SEL = ("name", "version", "requires-dist")
 
 
 def py_guards(text: str) -> bool:
-    """Independent re-statement of the guards of C11_headers_partial / C11_reqs_intact_partial."""
+    """Independent re-statement of the guards of C11_headers_partial / C11_reqs_intact_partial:
+    the body has no Requires-Dist:-looking line (nor a Name:/Version:-looking one unless the header
+    block declares that field), and every declared Requires-Dist value is plain."""
     if re.search(r"\r(?!\n)", text):
         return False
     lines = [ln[:-1] if ln.endswith("\r") else ln for ln in text.split("\n")]
     i = 0
-    cur_sel = False
-    seen: set = set()
+    fields: List[List[str]] = []
     hdr_re = re.compile(r"^([\x21-\x39\x3b-\x7e]+):(.*)$", re.S)
     while i < len(lines):
         ln = lines[i]
         if ln == "":
             break
         if ln[0] in " \t":
-            if cur_sel:
-                return False
+            if fields:
+                fields[-1][1] += ln
         else:
             m = hdr_re.match(ln)
             if not m:
                 break
-            cur_sel = lower_ascii(m.group(1)) in SEL
-            seen.add(lower_ascii(m.group(1)))
-            if lower_ascii(m.group(1)) in ("name", "version") and ":" in m.group(2):
-                return False
-            if lower_ascii(m.group(1)) == "requires-dist":
-                v = m.group(2).strip()
-                if v == "" or v.startswith("#") or v.startswith("--") or v.endswith("\\"):
-                    return False
+            fields.append([lower_ascii(m.group(1)), m.group(2)])
         i += 1
+    seen = {k for k, _ in fields}
+    for k, v in fields:
+        if k == "requires-dist":
+            v = v.strip()
+            if v == "" or v.startswith("#") or v.startswith("--") or v.endswith("\\"):
+                return False
     for ln in lines[i:]:
         m = re.match(r"(name|version|requires-dist):", lower_ascii(ln))
         if m and (m.group(1) == "requires-dist" or m.group(1) not in seen):
@@ -950,10 +948,9 @@ def oracle_wheel(MD, DI, orc: Oracles, w: Dict[str, Any], path: str) -> Optional
     names = [n for n, _ in a[1]]
     if own not in names or names.count(own) != 1:
         return None
-    # guard of C11_dist_info_vendored_elsewhere: nothing else starts with "<project>-" or contains "/<project>-"
-    # (project names with '.' are a regex wild card: use the exact regex there)
+    # guard of C11_dist_info_own: no OTHER root-level <project>-*.dist-info/METADATA member
     for n in names:
-        if n != own and (re.match(r"^(.+/)?%s-.+\.dist-info/METADATA$" % parts[0], n)):
+        if n != own and re.match(r"^%s-[^/]+\.dist-info/METADATA$" % re.escape(parts[0]), n):
             return None
     text = dict(a[1])[own]
     if text is None:
@@ -1078,11 +1075,11 @@ def oracle_names(DI, project: str, names: List[str]) -> Optional[str]:
     if len(owns) != 1:
         return None
     own = owns[0]
-    if any(n != own and (n.startswith(project + "-") or ("/" + project + "-") in n) for n in names):
+    if any(n != own and re.match(r"^%s-[^/]+\.dist-info/METADATA$" % re.escape(project), n) for n in names):
         return None
     got = DI._find_dist_info_metadata(project, list(reversed(names)))
     if got != own:
-        return "own entry %r present, nothing else named like the project, but %r was chosen" % (own, got)
+        return "own entry %r present, no other root-level dist-info of the project, but %r was chosen" % (own, got)
     return None
 
 
